@@ -5,7 +5,8 @@ import Bifrost.Props.C02
 import Bifrost.Props.C10
 /-!
 C01 — Signed messages are accepted only when the signature is authentic.
-Model of the code as fixed by "fix: ExtractAndVerify returned nil instead of the signature error".
+Model of the code as fixed by "fix: ExtractAndVerify returned nil instead of the signature error"
+and by "fix: peer: SignedMsg.ExtractPubKey rejects a sender that is not the canonical ID of its key".
 -/
 namespace Bifrost.Props.C01
 open Bifrost Bifrost.Codec Bifrost.Sign Bifrost.Crypto
@@ -15,7 +16,8 @@ theorem extractAndVerify_ok_iff (verify : VerifyFn) (sum : SumFn) (m : SignedMsg
     extractAndVerify verify sum m ctx = .ok (pk, id) ↔
       m.data ≠ [] ∧ m.fromPeerId ≠ [] ∧ m.signature.validate = true ∧
       idB58Decode m.fromPeerId = some id ∧ extractPublicKey id = some pk ∧
-      verifyWithPublic verify sum m.signature ctx pk m.data = .good := by
+      verifyWithPublic verify sum m.signature ctx pk m.data = .good ∧
+      idFromPublicKey pk = id ∧ idB58Encode id = m.fromPeerId := by
   exact extractAndVerify_ok_iff' verify sum m ctx pk id
 
 /-- Soundness: an accepted message was signed by a private key of the public key embedded in
@@ -26,7 +28,7 @@ theorem extractAndVerify_sound (S : SigScheme) (H : HashFam) (m : SignedMsg) (ct
     idB58Decode m.fromPeerId = some id ∧ extractPublicKey id = some pk ∧
     ∃ sk d, S.pub sk = pk ∧ H.sum m.signature.hashType m.data = some d ∧
       m.signature.sigData = S.sign sk (signBody ctx m.signature.hashType d) := by
-  obtain ⟨_, _, _, hid, hpk, hgood⟩ := (extractAndVerify_ok_iff _ _ _ _ _ _).mp h
+  obtain ⟨_, _, _, hid, hpk, hgood, _⟩ := (extractAndVerify_ok_iff _ _ _ _ _ _).mp h
   obtain ⟨_, d, sk, hsum, hpub, hsig⟩ := (C02.verify_iff_created S H _ _ _ _).mp hgood
   exact ⟨hid, hpk, sk, d, hpub, hsum, hsig⟩
 
@@ -40,7 +42,7 @@ theorem honest_accepted (S : SigScheme) (H : HashFam) (sk ctx data : Bytes) (t :
   have hrt := C10.text_roundtrip_key (S.pub sk) hpk
   apply (extractAndVerify_ok_iff _ _ _ _ _ _).mpr
   refine ⟨hd, ?_, ?_, hrt, C10.extract_idFromPublicKey (S.pub sk) hpk,
-    C02.created_verifies S H sk ctx data t s hs⟩
+    C02.created_verifies S H sk ctx data t s hs, rfl, rfl⟩
   · intro e
     simp only at e
     rw [e, idB58Decode_nil] at hrt
@@ -62,10 +64,66 @@ theorem tamper_rejected (S : SigScheme) (H : HashFam) (sk ctx data : Bytes) (t :
     (hsig : m'.signature.sigData = s.sigData)
     (hok : extractAndVerify S.verify H.sum m' ctx' = .ok (pk', id')) :
     pk' = S.pub sk ∧ ctx' = ctx ∧ m'.signature.hashType = t ∧ H.sum t m'.data = H.sum t data := by
-  obtain ⟨_, _, _, _, _, hgood⟩ := (extractAndVerify_ok_iff _ _ _ _ _ _).mp hok
+  obtain ⟨_, _, _, _, _, hgood, _⟩ := (extractAndVerify_ok_iff _ _ _ _ _ _).mp hok
   apply C02.created_binds S H sk ctx data t s hs m'.signature.hashType ctx' pk' m'.data
   rw [← hgood]
   exact verifyWithPublic_congr _ _ _ _ _ _ _ rfl hsig.symm
+
+/-- The claimed sender of an accepted message is a function of the key that verified it: the
+sender text is THE base58 text of THE id derived from that key, and that id is what is returned.
+No other encoding of the same key (non-minimal varints, reordered / repeated / unknown fields
+of the key message, another base58 spelling) is accepted. -/
+theorem sender_canonical (verify : VerifyFn) (sum : SumFn) (m : SignedMsg) (ctx pk id : Bytes)
+    (h : extractAndVerify verify sum m ctx = .ok (pk, id)) :
+    id = idFromPublicKey pk ∧ m.fromPeerId = idB58Encode (idFromPublicKey pk) := by
+  obtain ⟨_, _, _, _, _, _, h1, h2⟩ := (extractAndVerify_ok_iff _ _ _ _ _ _).mp h
+  exact ⟨h1.symm, by rw [← h2, h1]⟩
+
+/-- "Any change to the claimed sender makes verification report an error": a message accepted
+(under any context) with the signature bytes of an honest message of `sk` claims exactly the
+sender text the honest message claims, and is attributed to exactly the honest id. -/
+theorem claimed_sender_bound (S : SigScheme) (H : HashFam) (sk ctx data : Bytes) (t : Int) (s : Signature)
+    (hs : newSignature (S.sign sk) H.sum ctx t data = some s)
+    (m' : SignedMsg) (ctx' pk' id' : Bytes)
+    (hsig : m'.signature.sigData = s.sigData)
+    (hok : extractAndVerify S.verify H.sum m' ctx' = .ok (pk', id')) :
+    m'.fromPeerId = idB58Encode (idFromPublicKey (S.pub sk)) ∧ id' = idFromPublicKey (S.pub sk) := by
+  obtain ⟨hpk, _⟩ := tamper_rejected S H sk ctx data t s hs m' ctx' pk' id' hsig hok
+  obtain ⟨h1, h2⟩ := sender_canonical _ _ _ _ _ _ hok
+  rw [hpk] at h1 h2
+  exact ⟨h2, h1⟩
+
+/-- An alias of a key's id — any other byte string from which `ExtractPublicKey` yields the
+same key — is rejected as claimed sender, whatever the signature. -/
+theorem alias_sender_rejected (verify : VerifyFn) (sum : SumFn) (m : SignedMsg) (ctx id pk : Bytes)
+    (hid : idB58Decode m.fromPeerId = some id) (hpk : extractPublicKey id = some pk)
+    (hne : id ≠ idFromPublicKey pk) :
+    ∃ e, extractAndVerify verify sum m ctx = .error e := by
+  cases hr : extractAndVerify verify sum m ctx with
+  | error e => exact ⟨e, rfl⟩
+  | ok p =>
+    obtain ⟨pk', id'⟩ := p
+    obtain ⟨_, _, _, hid', hpk', _, hc, _⟩ := (extractAndVerify_ok_iff _ _ _ _ _ _).mp hr
+    rw [hid] at hid'
+    cases hid'
+    rw [hpk] at hpk'
+    cases hpk'
+    exact absurd hc.symm hne
+
+/-- Non-vacuity of `alias_sender_rejected`: the id of key 7…7 with a non-minimal length varint
+(`00 a4 00 ‖ key message`) yields the same key and is not the derived id. -/
+example : extractPublicKey ([0x00, 0xa4, 0x00] ++ marshalPublicKey (List.replicate 32 7)) = some (List.replicate 32 7) ∧
+    [0x00, 0xa4, 0x00] ++ marshalPublicKey (List.replicate 32 7) ≠ idFromPublicKey (List.replicate 32 7) := by
+  decide
+
+/-- …and `alias_sender_rejected` fires on it: a message claiming that alias as sender is
+rejected whatever its signature, data and context. -/
+example (verify : VerifyFn) (sum : SumFn) (sg : Signature) (data ctx : Bytes) :
+    ∃ e, extractAndVerify verify sum
+      { fromPeerId := idB58Encode ([0x00, 0xa4, 0x00] ++ marshalPublicKey (List.replicate 32 7)),
+        signature := sg, data := data } ctx = .error e :=
+  alias_sender_rejected verify sum _ ctx _ (List.replicate 32 7)
+    (C10.text_roundtrip _ (by decide)) (by decide) (by decide)
 
 /-- Changing the signature bytes to anything that was not produced with the claimed sender's
 private key over exactly this body is rejected. -/
